@@ -115,7 +115,7 @@ theorem rol_ofBV {w} (x : BitVec w) (n : Nat) (h : n ≤ w) : rol (ofBV x) n = o
     · rw [BitVec.rotateLeft_def, Nat.mod_self]
       have h1 : x <<< n = 0#n := by
         apply BitVec.eq_of_toNat_eq
-        simp [BitVec.toNat_shiftLeft, Nat.shiftLeft_eq]
+        simp
       have h2 : x >>> n = 0#n := by
         apply BitVec.eq_of_toNat_eq
         simp [BitVec.toNat_ushiftRight, Nat.shiftRight_eq_div_pow, Nat.div_eq_of_lt x.isLt]
@@ -134,7 +134,7 @@ theorem ror_ofBV {w} (x : BitVec w) (n : Nat) (h : n ≤ w) : ror (ofBV x) n = o
     · rw [BitVec.rotateRight_def, Nat.mod_self]
       have h1 : x <<< n = 0#n := by
         apply BitVec.eq_of_toNat_eq
-        simp [BitVec.toNat_shiftLeft, Nat.shiftLeft_eq]
+        simp
       have h2 : x >>> n = 0#n := by
         apply BitVec.eq_of_toNat_eq
         simp [BitVec.toNat_ushiftRight, Nat.shiftRight_eq_div_pow, Nat.div_eq_of_lt x.isLt]
